@@ -600,8 +600,12 @@ read_dns_withq(int dns_fd, int tun_fd, char *buf, int buflen, struct query *q)
 			int thispartlen, dataspace, datanew;
 
 			while (1) {
-				thispartlen = strlen(buf);
-				thispartlen = MIN(thispartlen, buftotal-bufoffset);
+				/* buf holds binary data, not a list of strings,
+				   when the reply's question was of another type */
+				if (bufoffset >= buftotal)
+					break;
+				thispartlen = strnlen(buf + bufoffset,
+						      buftotal - bufoffset);
 				dataspace = sizeof(data) - dataoffset;
 				if (thispartlen <= 0 || dataspace <= 0)
 					break;
